@@ -51,8 +51,8 @@ def qbytes_int_mm(activations: torch.Tensor, weights: torch.Tensor, output_scale
 
 
 def qbytes_int8pack_mm(activations: torch.Tensor, weights: torch.Tensor, output_scales: torch.Tensor) -> torch.Tensor:
-    # torch._weight_int8pack_mm expects a vector of scales
-    output_scales = output_scales.flatten()
+    # torch._weight_int8pack_mm expects a vector of scales (one per output feature)
+    output_scales = output_scales.flatten().expand(weights.shape[0]).contiguous()
     if activations.ndim == 2:
         return torch._weight_int8pack_mm(activations, weights, output_scales)
     else:
